@@ -127,6 +127,29 @@ class AbsDtype:
         return f'dtype({self.tag})'
 
 
+LEN_CAP = 8
+
+
+def _len_of(dim) -> int:
+    """`len()` must hand Python a concrete int.  A dimension that the path condition already bounds is enumerated
+    (one path per value); an unbounded one is split into the lengths 0..LEN_CAP, one path each, and a single
+    representative LEN_CAP+1 for everything longer -- recorded as a narrowing of that path's claim."""
+    d = z3.simplify(dim) if not isinstance(dim, int) else dim
+    if isinstance(d, int):
+        return d
+    if z3.is_int_value(d):
+        return d.as_long()
+    c = cur()
+    if c.branch(d <= LEN_CAP):
+        return c.concretize(d)
+    note = f'len() taken of an abstract operand: lengths above {LEN_CAP} are represented by {LEN_CAP + 1} on that path'
+    if note not in c.assumptions:
+        c.assumptions.append(note)
+    c.require(d == LEN_CAP + 1)
+    return LEN_CAP + 1
+
+
+
 class AbsArr:
     """Abstract array.  dims are z3 Int terms (possibly numerals)."""
 
@@ -193,7 +216,7 @@ class AbsArr:
     def __len__(self):
         if self.ndim == 0:
             raise TypeError('len() of unsized object')
-        return SInt(self.dims[0]).__index__()
+        return _len_of(self.dims[0])
 
     def __iter__(self):
         """Rows of a 2-D array / elements are not enumerable symbolically: only used by `zip(names, new_values)`."""
@@ -303,7 +326,7 @@ class AbsSeq(Sequence):
         return AbsArr(self.dims, kind or self.kind)   # list / tuple / range operands get NumPy's default width
 
     def __len__(self):
-        return SInt(self.dims[0]).__index__()
+        return _len_of(self.dims[0])
 
     def __getitem__(self, i):
         raise TypeError('absnp: element access of an abstract sequence')
